@@ -411,6 +411,15 @@ def _r13_4(ctx):
     got = run("get_dtls_client_hello", drec + drec)
     if got != dmsg and dbad is None:
         dbad = ("two datagrams", got, dmsg)
+
+    def dr(b):
+        return b"\x16\xfe\xfd" + b"\x00\x00" + b"\x00" * 6 + len(b).to_bytes(2, "big") + b
+
+    for cut in (13, 14, len(dmsg) - 1):  # the announced message is longer than what the first record carries
+        got = run("get_dtls_client_hello", dr(dmsg[:cut]))
+        ctx.cells += 1
+        if got is not None and dbad is None:
+            dbad = (f"one record with the first {cut} of {len(dmsg)} message bytes:", got, None)
     ctx.check(dbad is None, "R13.4", (L, "get_dtls_client_hello", m.func(L, "get_dtls_client_hello")), "DTLS ClientHello extraction on every prefix of a datagram",
               f"first {dbad[0]} bytes: got {dbad[1]!r}, expected {dbad[2]!r}" if dbad else "", desc=f"get_dtls_client_hello: {len(drec) + 2} prefixes: message exactly when complete")
     ctx.bounds.append("R13.4: one synthetic handshake message (7-byte body), all 1-3 record splits x 4 tails, all byte prefixes of the 1- and 2-record streams")
@@ -433,8 +442,8 @@ MUTANTS = [
            "        client_hello += d\n        if len(d) >= 4:\n            client_hello_size = struct.unpack(\"!I\", b\"\\x00\" + client_hello[1:4])[0] + 4\n", "R13.4"),
     Mutant("hello-complete-needs-one-more-byte", L, "            if len(client_hello) >= client_hello_size:\n                return client_hello[:client_hello_size]\n    return None\n\n\ndef parse_client_hello",
            "            if len(client_hello) > client_hello_size:\n                return client_hello[:client_hello_size]\n    return None\n\n\ndef parse_client_hello", "R13.4"),
-    Mutant("dtls-incomplete-record-accepted", L, "        if len(data) < offset + record_size:\n            return\n        record_body = data[offset : offset + record_size]\n        yield record_body\n        offset += record_size\n\n\ndef get_dtls_client_hello",
-           "        record_body = data[offset : offset + record_size]\n        yield record_body\n        offset += record_size\n\n\ndef get_dtls_client_hello", "R13.4"),
+    Mutant("dtls-hello-returned-before-complete", L, "            if len(client_hello) >= client_hello_size:\n                return client_hello[:client_hello_size]\n    return None\n\n\ndef dtls_parse_client_hello",
+           "            if client_hello_size:\n                return client_hello[:client_hello_size]\n    return None\n\n\ndef dtls_parse_client_hello", "R13.4"),
     # R13.1
     Mutant("tls-wrapper-catches-wrong-type", L, "            return ClientHello(client_hello[4:])\n        except EOFError as e:", "            return ClientHello(client_hello[4:])\n        except IndexError as e:", "R13.1"),
     Mutant("dtls-wrapper-removed", L, "        try:\n            return ClientHello(client_hello[12:], dtls=True)\n        except EOFError as e:\n            raise ValueError(\"Invalid ClientHello\") from e\n",
